@@ -532,16 +532,16 @@ match self.rng.below(8) {
                 let kind = match self.rng.below(4) {
                     0 => CodeKind::Lifted,
                     2 | 3 => CodeKind::Partial { reply: self.pct(50), sudo: self.pct(50), migrate: self.pct(50) },
-                    1 => CodeKind::Puppet { code_tag: 50 + self.rng.below(40) as u32, checksum: Some(crate::core::hex(&self.rng.bytes(32))) },
+                    1 => CodeKind::Puppet { code_tag: 50 + self.rng.below(40) as u32, checksum: Some(crate::core::hex(&match self.rng.below(8) { 0 => vec![0u8; 32], 1 => vec![0xFFu8; 32], _ => self.rng.bytes(32) })) },
                     _ => CodeKind::Puppet { code_tag: 50 + self.rng.below(40) as u32, checksum: None },
                 };
-                let next = m.next_code_id();
+                let next = m.next_code_id().unwrap_or(u64::MAX);
                 match self.rng.below(6) {
                     0 => Top::DuplicateCode { id: if self.pct(20) { 999 } else { *self.rng.pick(&m.codes.keys().copied().chain([0]).collect::<Vec<_>>()) } },
                     1 => Top::StoreCode { kind, creator: Some(self.users[1].clone()), id: None },
                     2 => {
                         let big = 1_000_000 + self.rng.below(5);
-                        Top::StoreCode { kind, creator: None, id: Some(*self.rng.pick(&[0, 1, next, next + 3, big, 1u64 << 63])) }
+                        Top::StoreCode { kind, creator: None, id: Some(if self.pct(6) { u64::MAX } else { *self.rng.pick(&[0, 1, next, next.saturating_add(3), big, 1u64 << 63]) }) }
                     }
                     _ => Top::StoreCode { kind, creator: None, id: None },
                 }
